@@ -14,7 +14,7 @@ EXPLANATION = (
     "SIB: for every Waveform subclass the defining parameters (constructor parameters, mapped to the attributes __init__ stores them in) are forwarded identically by change_duration, __mul__, _to_dict "
     "and _to_abstract_repr: same attributes, same order, with only the documented substitution (new_duration for the duration; the linearly scaling parameters -- value / start,stop / area / values / samples -- "
     "multiplied by the factor, shape parameters such as beta and times untouched). Base operations: samples returns a copy, __neg__ = self * -1, __truediv__ = self * (1/other) with a zero rejection, __eq__ compares durations "
-    "and sample-wise closeness, indices are range-checked. GUARD: Waveform.__init__ rejects non-positive durations; Pulse.__init__ rejects negative amplitude and unequal durations and reduces both phases modulo 2*pi. "
+    "and sample-wise closeness, indices are range-checked, and both bounds of the slice returned by _check_slice are provably >= 0 on every path (symbolic-bounds prover, pstatic/bounds.py: a negative bound would wrap around). GUARD: Waveform.__init__ rejects non-positive durations; Pulse.__init__ rejects negative amplitude and unequal durations and reduces both phases modulo 2*pi. "
     "DIV0: under the class invariant _duration >= 1 (derived from the constructor's rejection) no denominator of the form (_duration - c) can be zero unguarded. "
     "NOT decided: areas, maxima, interpolation values (numeric contracts of Blackman/Kaiser/Interpolated waveforms)."
 )
